@@ -19,7 +19,7 @@ def beValue (acc : Nat) : List Nat → Nat
   | b :: bs => beValue (acc * 256 + b) bs
 
 def VarintCfg.Consistent (c : VarintCfg) : Prop :=
-  c.found = true ∧ c.lzBits = 64 ∧ 3 ≤ c.lzShift ∧ c.encBufFull = 9 ∧ c.encLoopBound = 8 ∧ c.encDstOffset = 1 ∧
+  c.lzBits = 64 ∧ 3 ≤ c.lzShift ∧ c.encBufFull = 9 ∧ c.encLoopBound = 8 ∧ c.encDstOffset = 1 ∧
   c.encShiftUnit = 8 ∧ c.encShiftTop = 7 ∧ c.decShift = 8 ∧
   c.encPrefixSum = c.decPrefixBase + 8 ∧ c.encPrefixSum ≤ 255 ∧
   1 ≤ c.encBelow ∧ c.encBelow ≤ c.decBelow ∧ c.decBelow ≤ c.decPrefixBase + 1 ∧
@@ -101,7 +101,7 @@ theorem range_map_shift (n x : Nat) :
 set of constants and every 64-bit value -/
 theorem decode_encode_with (c : VarintCfg) (hc : c.Consistent) (x : Nat) (hx : x < 2 ^ 64) (rest : List Nat) :
     decodeUint64With c (encodeUint64With c x ++ rest) = .ok (x, rest) := by
-  obtain ⟨_, hlzb, hlzs, hfull, hloop, hoff, hunit, htop, hdsh, hsum, hsum255, hE1, hED, hDP, hTM, hbuf⟩ := hc
+  obtain ⟨hlzb, hlzs, hfull, hloop, hoff, hunit, htop, hdsh, hsum, hsum255, hE1, hED, hDP, hTM, hbuf⟩ := hc
   unfold encodeUint64With
   by_cases hsmall : x < c.encBelow
   · rw [if_pos hsmall]
